@@ -8,6 +8,14 @@ package registry
 // denom index, params, module sequence); at probe points EVM calls go to every candidate address in four execution
 // modes (FinalizeBlock, CheckTx, Simulate, gRPC EthCall).  The Coq model (Model/Registry.v) replays each case; the Go
 // oracle below checks the property text directly.
+//
+// Denominations: the bank module may know a denomination by its metadata without any coin of it existing (IBC voucher
+// sent back, token listed in the bank genesis and never minted).  The registry's rule is about SUPPLY at the time of the
+// deploy message; the driver keeps both attributes independent (setBankMeta / setSupply), the generator aims at every
+// combination, and scripted steps move the supply of one denomination to / from zero between two deploy attempts.
+//
+// Scale: NewEVM wires "all stored contracts"; the last case(s) of every run hold more than 100 of them (the SDK's
+// default page size) and probe the contracts at the end of the store's address order.
 
 import (
 	"bytes"
@@ -390,6 +398,12 @@ type world struct {
 	// scripted steps still to come (runCase): "wl-one" / "wl-empty" update-params by governance, "deploy-by-removed"
 	script    []string
 	scriptKey *itutiltypes.TestAccount
+	// the scale case: > 100 registered contracts; spare denominations (with supply) that scripted "deploy-scale" steps use
+	scale       bool
+	scaleDenoms []string
+	// "zs-*" scripted steps: one denomination whose supply goes up / down to zero between two deploy attempts
+	zsDenom string
+	zsMeta  bool
 }
 
 var denomPool = []string{"uatom", "ibc/27394FB092D2ECCD56123C74F36E4C1F926001CEADA9CA97EA622B25F41E5EB2", "factory/evm1xyz/sub", "uzero", "uosmo", "Token-1.x:y"}
@@ -441,6 +455,69 @@ func (w *world) setSupply(d string, v *big.Int) {
 		coins := sdk.NewCoins(sdk.NewCoin(d, sdkmath.NewIntFromBigInt(new(big.Int).Sub(cur, v))))
 		require.NoError(w.t, w.c.App.BankKeeper.BurnCoins(ctx, evmtypes.ModuleName, coins))
 	}
+}
+
+// bank denom-metadata: an attribute of a denomination that is independent of its supply (ibc-go registers it for a
+// voucher on the first packet and leaves it behind when the last voucher is burnt; the bank genesis may list tokens that
+// were never minted).  The registry's rules speak about SUPPLY only; the driver varies both.
+func (w *world) hasBankMeta(ctx sdk.Context, d string) bool {
+	if sdk.ValidateDenom(d) != nil {
+		return false
+	}
+	return w.c.App.BankKeeper.HasDenomMetaData(ctx, d)
+}
+
+func (w *world) setBankMeta(d string) {
+	if sdk.ValidateDenom(d) != nil {
+		return
+	}
+	w.c.App.BankKeeper.SetDenomMetaData(w.ctx(), banktypes.Metadata{
+		Description: "registered by another module", Base: d, Display: d, Name: d, Symbol: strings.ToUpper(d),
+		DenomUnits: []*banktypes.DenomUnit{{Denom: d, Exponent: 0}},
+	})
+}
+
+// denomClass: the four classes of a denomination at the time of a deploy attempt
+func (w *world) denomClass(ctx sdk.Context, d string) string {
+	if sdk.ValidateDenom(d) != nil {
+		return "not-a-denomination"
+	}
+	c := "no-bank-metadata"
+	if w.hasBankMeta(ctx, d) {
+		c = "bank-metadata"
+	}
+	if w.supplyOf(ctx, d).Sign() > 0 {
+		return c + "+supply"
+	}
+	return c + "+zero-supply"
+}
+
+// bulkDeploy (scale case): n ERC-20 contracts, one per denomination with one unit of supply, deployed by a whitelisted
+// key through the message server (what a transaction's handler calls), plus spare denominations for real transactions
+func (w *world) bulkDeploy(n, spare int) {
+	ctx := w.ctx()
+	k := w.c.App.CPCKeeper
+	srv := cpckeeper.NewMsgServerImpl(k)
+	key := w.pool[0].GetCosmosAddress().String()
+	p := k.GetParams(ctx)
+	p.WhitelistedDeployers = []string{key}
+	_, err := srv.UpdateParams(ctx, &cpctypes.MsgUpdateParams{Authority: w.gov, NewParams: p})
+	require.NoError(w.t, err)
+	for j := 0; j < n+spare; j++ {
+		d := fmt.Sprintf("scl%03d", j)
+		w.setSupply(d, big.NewInt(1))
+		w.noteDenom(d)
+		if j%3 == 0 {
+			w.setBankMeta(d)
+		}
+		if j >= n {
+			w.scaleDenoms = append(w.scaleDenoms, d)
+			continue
+		}
+		_, err := srv.DeployErc20Contract(ctx, &cpctypes.MsgDeployErc20ContractRequest{Authority: key, Name: fmt.Sprintf("Scale%03d", j), Symbol: fmt.Sprintf("SC%03d", j), Decimals: uint32(j % 19), MinDenom: d})
+		require.NoError(w.t, err)
+	}
+	w.side.Count(fmt.Sprintf("scale:contracts-registered-before-the-steps>100=%v", len(k.GetAllCustomPrecompiledContractsMeta(ctx)) > 100))
 }
 
 // ------------------------------------------------------------------ sending
@@ -891,6 +968,19 @@ func (w *world) genDecimals() uint32 {
 
 func (w *world) genDenom(cur *regState) string {
 	x := w.r.Intn(100)
+	if w.r.Chance(14) {
+		// a denomination the bank module knows by its metadata although no coin of it exists, without contract
+		q := w.c.QueryCtx()
+		var known []string
+		for _, d := range w.denoms {
+			if cur.idx(d) == nil && w.hasBankMeta(q, d) && w.supplyOf(q, d).Sign() == 0 {
+				known = append(known, d)
+			}
+		}
+		if len(known) > 0 {
+			return w.pick(known)
+		}
+	}
 	if w.r.Chance(35) {
 		// a denomination that has supply and no contract yet, if there is one
 		q := w.c.QueryCtx()
@@ -1069,8 +1159,12 @@ func (w *world) step(cur regState) stepOut {
 	switch scripted {
 	case "wl-one", "wl-empty":
 		x = 50
-	case "deploy-by-removed":
+	case "deploy-by-removed", "deploy-scale", "zs-deploy", "zs-deploy-unlisted":
 		x = 0
+	case "zs-up":
+		return w.stepSupply(cur, w.zsDenom, big.NewInt(int64(1+r.Intn(1_000_000))), w.zsMeta)
+	case "zs-down":
+		return w.stepSupply(cur, w.zsDenom, big.NewInt(0), w.zsMeta)
 	}
 	switch {
 	case x < 38: // deploy ERC-20
@@ -1087,6 +1181,23 @@ func (w *world) step(cur regState) stepOut {
 				}
 			}
 		}
+		switch scripted {
+		case "deploy-scale":
+			// one more contract on top of > 100, by a real transaction of the whitelisted key
+			auth, key = w.scriptKey.GetCosmosAddress().String(), w.scriptKey
+			if len(w.scaleDenoms) > 0 {
+				denom, w.scaleDenoms = w.scaleDenoms[0], w.scaleDenoms[1:]
+			}
+		case "zs-deploy":
+			auth, key, denom = w.scriptKey.GetCosmosAddress().String(), w.scriptKey, w.zsDenom
+		case "zs-deploy-unlisted":
+			// an attempt that fails for another reason while the denomination HAS supply
+			for _, a := range w.pool {
+				if a != w.scriptKey {
+					auth, key, denom = a.GetCosmosAddress().String(), a, w.zsDenom
+				}
+			}
+		}
 		msg := &cpctypes.MsgDeployErc20ContractRequest{Authority: auth, Name: w.genName(), Symbol: w.genSymbol(denom), Decimals: w.genDecimals(), MinDenom: denom}
 		if r.Chance(65) || scripted != "" { // mostly well-formed, so that the interesting checks are reached
 			msg.Name = fmt.Sprintf("Token%c%d", 'A'+rune(r.Intn(26)), r.Intn(1000))
@@ -1095,7 +1206,22 @@ func (w *world) step(cur regState) stepOut {
 		}
 		w.noteDenom(denom)
 		out.supplyBefore = w.snapshotSupply()
+		dclass := w.denomClass(w.c.QueryCtx(), denom)
+		if cur.idx(denom) != nil {
+			dclass += "+has-contract"
+		}
+		defer func() {
+			// the classes of denominations that deploy attempts meet, with what became of the attempt
+			what := out.res.class
+			if what != "ok" {
+				what = refusalClass(out.res.info)
+			}
+			w.side.Count("deploy-denom:" + dclass + ":" + what)
+		}()
 		path := r.Intn(100)
+		if scripted == "deploy-scale" {
+			path = 0
+		}
 		vb := true
 		switch {
 		case path < 45 && key != nil:
@@ -1232,7 +1358,7 @@ func (w *world) step(cur regState) stepOut {
 		default:
 			v = r.BigBits(1 + r.Intn(90))
 		}
-		out = w.stepSupply(cur, w.pick(denomPool), v)
+		out = w.stepSupply(cur, w.pick(denomPool), v, r.Chance(30))
 	default: // the exported keeper function with arbitrary arguments
 		if !w.api {
 			// only cases chosen for it leave the property's quantifier
@@ -1243,11 +1369,20 @@ func (w *world) step(cur regState) stepOut {
 	return out
 }
 
-func (w *world) stepSupply(cur regState, d string, v *big.Int) stepOut {
+// stepSupply: the bank supply of d becomes v; withMeta: the bank module also gets (or keeps) denom-metadata for d,
+// which no rule of the registry reads: the model's term is the supply change alone
+func (w *world) stepSupply(cur regState, d string, v *big.Int, withMeta bool) stepOut {
 	out := stepOut{before: cur}
 	out.label = "env/supply>0"
 	if v.Sign() == 0 {
 		out.label = "env/supply=0"
+	}
+	w.noteDenom(d)
+	if withMeta {
+		w.setBankMeta(d)
+	}
+	if w.hasBankMeta(w.ctx(), d) {
+		out.label += "+bank-metadata"
 	}
 	w.setSupply(d, v)
 	out.res = opResult{class: "ok"}
@@ -1666,8 +1801,22 @@ func (w *world) candidates(cur *regState) []common.Address {
 	// every registered contract (a sample when there are many), disabled ones first
 	ms := append([]metaObs{}, cur.Metas...)
 	sort.SliceStable(ms, func(i, j int) bool { return ms[i].M.Disabled && !ms[j].M.Disabled })
+	few := 7
+	if n := len(cur.Metas); w.scale && n > 20 {
+		// many contracts: the LAST ones in address order (the store's iteration order), the first one, a sample of
+		// the others, then (below) two of the disabled ones
+		for k := 1; k <= 4; k++ {
+			add(cur.Metas[n-k].Key)
+		}
+		add(cur.Metas[0].Key)
+		for k := 0; k < 3; k++ {
+			add(cur.Metas[r.Intn(n)].Key)
+		}
+		few = 2
+		w.side.Count(fmt.Sprintf("scale:probe-point-with-more-than-100-contracts=%v", n > 100))
+	}
 	for i, m := range ms {
-		if i < 7 {
+		if i < few {
 			add(m.Key)
 		}
 	}
@@ -2073,6 +2222,8 @@ func TestDriverRegistry(t *testing.T) {
 			"whole registry compared after every step, EVM calls to <=14 candidate addresses x 5 selectors x 4 modes at 2..3 probe points (direct, through CALL / STATICCALL forwarders, and from the CONSTRUCTOR of a creation message); "+
 			"between the steps non-consensus traffic in changing orders: eth_call pinned to an OLDER committed height (answer compared with that version's registry), check / simulate / query calls between FinalizeBlock and Commit of a deploy block, "+
 			"simulated deployments never included, each followed or preceded by a delivered call to the address concerned; "+
+			"denominations of deploy attempts in every class {bank denom-metadata, none} x {supply, zero supply} (histogram deploy-denom:*), in every fourth case the supply of one denomination goes to / from zero between two attempts; "+
+			"the last case(s) of a run: > 100 contracts registered beforehand (message server), three more by real transactions, probes at the LAST addresses in store order, the first and a sample; "+
 			"non-trivial = at least one deployment by message succeeded and at least one step was refused, distinct step/outcome sequence")
 	cases := NewCases(dir, "From Evm Require Import Registry CorrRegistry.", "registry_mismatches")
 
@@ -2083,19 +2234,28 @@ func TestDriverRegistry(t *testing.T) {
 			base = makeBase(t)
 		}
 		// one sub-test per case: the chain of a case is released when the case ends (thousands of cases in the thorough tier)
-		t.Run(fmt.Sprintf("case%d", i), func(t *testing.T) { oneCase(t, i, rng, side, cases, base) })
+		t.Run(fmt.Sprintf("case%d", i), func(t *testing.T) { oneCase(t, i, rng, side, cases, base, false) })
+	}
+	// the scale cases come last (one per run, a few more in the thorough tier): more than 100 registered contracts; their
+	// terms are large, so they get shards of their own at the end
+	for j := 0; j < 1+n/300; j++ {
+		i := n + j
+		t.Run(fmt.Sprintf("case%d-scale", i), func(t *testing.T) { oneCase(t, i, rng, side, cases, base, true) })
 	}
 	cases.Write(t, 8)
 	side.Write(t, dir)
 }
 
-func oneCase(t *testing.T, i int, rng *Rng, side *Sidecar, cases *CasesFile, base *baseDoc) {
+func oneCase(t *testing.T, i int, rng *Rng, side *Sidecar, cases *CasesFile, base *baseDoc, scale bool) {
 	{
 		r := rng.Fork(uint64(i))
 		kind := []string{"wiped", "found", "wiped", "initchain", "wiped"}[i%5]
 		flags := (i / 5) % 4
 		if i < 4 {
 			kind, flags = "initchain", i // every flag combination through a real InitChain, every run
+		}
+		if scale {
+			kind = "scale" // a chain as found, then more than 100 contracts registered before the steps begin
 		}
 		var w *world
 		var steps []stepOut
@@ -2141,6 +2301,16 @@ func oneCase(t *testing.T, i int, rng *Rng, side *Sidecar, cases *CasesFile, bas
 					}
 				}
 			}
+			// some are known to the bank module by their metadata, with or without supply
+			for _, d := range denomPool {
+				if r.Chance(35) {
+					w.setBankMeta(d)
+				}
+			}
+			if kind == "scale" {
+				w.scale = true
+				w.bulkDeploy(101+r.Intn(25), 4)
+			}
 			w.snapshot0()
 			init = readReg(t, c.App, c.QueryCtx())
 			if kind == "wiped" {
@@ -2150,6 +2320,9 @@ func oneCase(t *testing.T, i int, rng *Rng, side *Sidecar, cases *CasesFile, bas
 			}
 		}
 		w.api = r.Chance(35)
+		if w.scale {
+			w.api = false
+		}
 		runCase(t, cases, side, i, kind, w, init, steps)
 	}
 }
@@ -2206,9 +2379,27 @@ func runCase(t *testing.T, cases *CasesFile, side *Sidecar, i int, kind string, 
 	nsteps := len(forced) + 4 + r.Intn(11)
 	// every other case: governance whitelists one key, then empties the whitelist, then that key tries to deploy
 	scriptAt := -1
-	if i%2 == 1 {
+	var script []string
+	switch {
+	case w.scale:
+		// three more contracts by real transactions, then a few free steps (Disabled toggles hit any of the > 100)
+		script = []string{"deploy-scale", "deploy-scale", "deploy-scale"}
+		nsteps = len(forced) + len(script) + 2 + r.Intn(3)
+		scriptAt = len(forced)
+	case i%2 == 1:
+		script = []string{"wl-one", "wl-empty", "deploy-by-removed"}
 		nsteps += 3
 		scriptAt = len(forced) + r.Intn(nsteps-len(forced)-2)
+	case i%4 == 2:
+		// the supply of one denomination (with or without bank metadata) changes between two deploy attempts
+		if r.Bool() {
+			script = []string{"wl-one", "zs-up", "zs-deploy-unlisted", "zs-down", "zs-deploy"} // the second attempt meets zero supply
+		} else {
+			script = []string{"wl-one", "zs-down", "zs-deploy", "zs-up", "zs-deploy"} // the first one does
+		}
+		w.zsDenom, w.zsMeta = fmt.Sprintf("uzs%d", r.Intn(3)), r.Chance(60)
+		nsteps = len(forced) + len(script) + 1 + r.Intn(6)
+		scriptAt = len(forced) + r.Intn(nsteps-len(forced)-len(script)+1)
 	}
 	first := len(steps)
 	probeAt := map[int]bool{}
@@ -2220,11 +2411,14 @@ func runCase(t *testing.T, cases *CasesFile, side *Sidecar, i int, kind string, 
 	for k := 0; k < nsteps; k++ {
 		var o stepOut
 		if k < len(forced) {
-			o = w.stepSupply(cur, forced[k], big.NewInt(int64(1+r.Intn(1_000_000))))
+			o = w.stepSupply(cur, forced[k], big.NewInt(int64(1+r.Intn(1_000_000))), r.Chance(30))
 		} else {
 			if k == scriptAt {
-				w.script = []string{"wl-one", "wl-empty", "deploy-by-removed"}
+				w.script = script
 				w.scriptKey = w.pool[r.Intn(len(w.pool))]
+				if w.scale {
+					w.scriptKey = w.pool[0] // the key bulkDeploy whitelisted
+				}
 			}
 			o = w.step(cur)
 		}
